@@ -207,8 +207,10 @@ def _chunk(arg: tuple) -> tuple[int, list]:
     items, hosts, attached = arg
     out = []
     steps = 0
+    from checks import store_replay
     for n, s in items:
         beh = json.loads(s)
+        store_replay.set_load_factor(store_replay.rot(n))
         for host in hosts:
             for att in ((False, True) if attached else (False,)):
                 if att and not any(ev['operand'][0] == 'expr' for ev in beh[1:]):      # only 'expr' operands can be attached
@@ -217,6 +219,7 @@ def _chunk(arg: tuple) -> tuple[int, list]:
                 steps += st
                 for kind, fp, msg in fnd:
                     out.append((kind, fp, msg, host, att, beh))
+    store_replay.set_load_factor(1000)
     return steps, out
 
 
